@@ -158,3 +158,38 @@ def render_tokens(wire):
         out.append(sep.join(t.encode() for t in toks) + b"\n")
     assert p == len(wire)
     return b"".join(out)
+
+
+# ---------- tex (BrainVisa texture) ----------
+def tex_view(b):
+    """-> (wire of the token stream for TexCodec, modelled?)  A token that an extraction would consume only in part
+    (e.g. "3.5" read as unsigned) is outside the token-level model."""
+    lines = b.split(b"\n")
+    if lines and lines[-1] == b"": lines.pop()
+    w = [len(lines)]; ok = True
+    for ln in lines:
+        toks = ln.split()
+        w.append(len(toks))
+        for t in toks:
+            oi, iv, pi = extract_uint(t, 0, 32)
+            od, dv, pd = extract_double(t, 0)
+            full_i = oi and pi == len(t); full_d = od and pd == len(t)
+            if od and not full_d: ok = False      # `>> double` would succeed and stop inside the token
+            # `>> unsigned` stopping inside the token (e.g. "3.5" -> 3): marked -1, the model answers "unmodelled" if it gets there
+            w += opt(iv if full_i else (-1 if oi else None)) + optw(dv if full_d else None) + [1 if t.startswith(b"ascii") else 0]
+    return w, ok
+
+def starts_with_magic(b):
+    """BrainVisaTextureIO::identify: the tag itself starts with the magic word (no white space skipped)"""
+    return b.startswith(b"ascii")
+
+def render_tex(wire):
+    assert wire[0] == 0
+    nl = wire[1]; p = 2; out = []
+    for _ in range(nl):
+        nt = wire[p]; p += 1; s = b""
+        for _ in range(nt):
+            tag, lo, hi = wire[p], wire[p + 1], wire[p + 2]; p += 3
+            s += {0: lambda: str(lo).encode(), 1: lambda: b" " + fmt_g(join(lo, hi)).encode(), 2: lambda: b"ascii", 3: lambda: b"FLOAT"}[tag]()
+        out.append(s + b"\n")
+    return b"".join(out)
